@@ -21,6 +21,7 @@ CONSTANTS N, NS, NP, NW,            \* objects, traced / untraced / weak slots p
           SZ,                       \* size in bytes of an object box in the build that replays the behaviours
           CLEAN, MaxActs,           \* cleaners feature modelled / number of cleaning actions per behaviour
           RECORD,                   \* FALSE only in the liveness configuration (no monitor, no history)
+          BUG_NESTED_DROP_FLAG,     \* pre-fix Cc::drop (sets `dropping` also when it runs inside a collection: defect 6)
           BUG_CLEAN_REENTRANT       \* pre-fix Cleanable::clean (action run while the map is borrowed and kept alive)
 
 VARIABLES st, mon, hist
@@ -150,7 +151,7 @@ CcDropStep(s) ==
          ELSE SetTop([s EXCEPT !.fing = f.sv.f], [f EXCEPT !.ph = "dodrop"])
     [] f.ph = "dodrop" ->
          LET s1 == Unbuffer([s EXCEPT !.rc[o] = @ - 1], o)
-             s2 == [s1 EXCEPT !.drp = TRUE, !.dr[o] = WEAK, !.box[o] = "dropped"]
+             s2 == [s1 EXCEPT !.drp = (BUG_NESTED_DROP_FLAG \/ ~s1.col \/ s1.drp), !.dr[o] = WEAK, !.box[o] = "dropped"]
          IN IF IsMap(o) THEN SPush(SetTop(s2, [f EXCEPT !.ph = "free", !.sv = [d |-> s.drp]]), [Frame("mapdrop", OwnerOf(o), "next") EXCEPT !.i = 1, !.x = ""])
             ELSE PushValueDrop(SetTop(s2, [f EXCEPT !.ph = "free", !.sv = [d |-> s.drp]]), o)
     [] f.ph = "free" ->
